@@ -279,8 +279,10 @@ class ConnectionState:
         return ResponseOk(cmd.tag, cmd.command + b' completed.'), updates
 
     async def do_close(self, cmd: CloseCommand) -> _CommandRet:
-        await self.session.expunge_mailbox(self.selected)
+        selected = self.selected
         self._selected = None
+        if not selected.readonly:
+            await self.session.expunge_mailbox(selected)
         return ResponseOk(cmd.tag, cmd.command + b' completed.'), None
 
     async def do_expunge(self, cmd: ExpungeCommand) -> _CommandRet:
